@@ -21,7 +21,74 @@ NOT_BEHAVIOUR = 'decides the listed structural clauses (necessary conditions); d
 PROPS = {}
 
 
+RULE_TITLES = {
+    'R00': 'the small helpers the other rules reason with (seatsLeftToFill, topCand, byVote, select, surplus, ...) are what their names say, modulo renaming',
+    'R01': 'when count() returns nobody is hopeful',
+    'R02': 'every elect site is justified by a quota test, a seat guard or a pending receiver',
+    'R03': 'batch exclusions are capped by hopefuls - seats left and name nobody twice',
+    'R03b': 'remaining hopefuls are defeated only when the seats are filled',
+    'R03c': 'a single exclusion happens only while more hopefuls than open seats remain',
+    'R04': 'every loop has a variant; every main-loop iteration makes progress',
+    'R05': 'status fields are written only by Candidate; transitions start from the right status set; withdrawn never acted on',
+    'R06': 'round numbers only increase',
+    'R07': 'a transferred ballot is credited exactly once, to its next continuing candidate or to the non-transferable total',
+    'R08': 'tallies are written only by the first count, transfer() and the resets; a reset follows the transfer of every ballot of that candidate',
+    'R09': 'transfer value = old value x surplus / tally rounded down, then transfer(b), then tally := quota, on an elected candidate only',
+    'R10': 'Meek distribution: every ballot value is split into kept parts and residual that add up',
+    'R10b': 'after an exclusion zeroes a tally the votes are redistributed before the next action is recorded',
+    'R10c': 'the keep / pass-on split never hands out more than it receives',
+    'R11': 'keep factors: update form, zero on defeat before the next distribution',
+    'R12': 'iteration exits: omega test, stable-state test, surplus and votes recomputed, elected status reported',
+    'R13': 'quota form and election test agree with the exactness of the arithmetic; epsilon read only where it exists; quota computed before use',
+    'R14': 'the election step precedes every exclusion and every choice of a surplus',
+    'R15': 'the tie order is consulted only by breakTie; tie numbering is position in the listed order; default is ballot order',
+    'R16': 'tied sets handed to breakTie are the arg-min / arg-max sets; Scottish prior-stage search equals the reference modulo renaming',
+    'R17': 'a candidate acted on singly is the one breakTie returned; batches are not cut by position out of an id-ordered list',
+    'R18': 'sure-loser tests are strict, use ALL untransferred surplus, and every extra bound term is a whole tally',
+    'R19': 'the ballot multiplier is applied last and never enters a rounded operation',
+    'R20': 'ballot loops only accumulate: no break/return, no shared-state store, no mutation of the walked list, no per-line counters',
+    'R21': 'abstract interpretation of Fixed/Guarded operations: scale, rounding count and operand form equal the specification',
+    'R22': 'Rational is a Fraction subclass whose operators return Rational; __new__ goes through Fraction.__new__',
+    'R23': 'Guarded comparisons: difference below half a unit of precision is equality; derived operators agree with __cmp__',
+    'R24': 'Guarded with guard 0 computes what Fixed computes; arithmetic-dependent option branches only supply defaults',
+    'R25': 'printing: half-up rounding constants, sign-safe split, no state change, printed form never edited or special-cased by a renderer',
+    'R26': 'candidate references are sanitised by getCid; withdrawn/undeclared/eligible sets only grow; per-candidate tables are complete',
+    'R26d': 'tokenizer precedence: quotes, block comments, # comments; splitlines()',
+    'R27': 'array item types can hold every candidate id of their branch (package-wide)',
+    'R28': 'withdrawn candidates are stripped from every rank; a line is kept exactly when its ranking survives',
+    'R29': 'ballot total and multipliers are written only at line construction; ballot-id lines count one; multiplier = int(token)',
+    'R30': 'every accepted profile passed __validate (seats, ballots, duplicates)',
+    'R31': 'no foreign exception escapes the reader: definite assignment with exception edges, partial operations enumerated, generators do not call next()',
+    'R32': 'every parser loop consumes a token; loops over the declared candidate count run only after that many names were read',
+    'R33': 'CLI handlers cover every package exception and end in sys.exit(non-zero)',
+    'R34': 'getopt consults the layers in precedence order with no value-dependent fallback',
+    'R35': 'statutory rules force their arithmetic; every option read on their behalf (own and inherited methods) is forced',
+    'R36': 'construction order: profile options merged into the file layer before the rule, rule.options() before the arithmetic; the driver does not write the caller layer',
+    'R37': 'status changes are logged by the method that makes them; tally snapshots are recorded only by the count itself',
+    'R38': 'first and last action; results read after the end action; postCheck',
+    'R39': 'record header fields',
+    'R40': 'renderers read an action key only from actions that carry it',
+    'R41': 'renderers take figures from the record, never from the live election, and do not modify the record',
+    'R42': 'dump rows have the header column count; every action yields a row/line',
+    'R43': 'record key typestate under interruption',
+    'R44': 'the action list is only appended to, by ElectionRecord.action, and the action is complete when appended',
+    'R45': 'nothing swallows a KeyboardInterrupt; nothing is recorded in finally bodies / interrupt handlers',
+    'R46': 'the driver catches the interrupt around the count, passes the flag to every rendering, and reads back only files written on every path',
+    'R47': 'every class attribute the arithmetic reads is re-established by initialize(); epsilon consumers are guarded; no presence probing',
+    'R48': 'nothing writes process-global state after import',
+    'R49': 'per-election objects are fresh; the shared profile is never modified by a count, not even through an alias',
+    'R50': 'stored integers of values are written only in freshly built objects (values are immutable)',
+    'R51': 'no unbound local or free variable on the count path',
+    'R52': 'optional source / comment strings are read whenever a quoted token follows',
+}
+
+
 def prop(pid, rules, explanation, decided, declined, assumptions=()):
+    decided = list(decided)
+    mentioned = ' '.join(decided)
+    for rid, _fn in rules:
+        if '(%s)' % rid not in mentioned and rid in RULE_TITLES:
+            decided.append('%s (%s)' % (RULE_TITLES[rid], rid))
     PROPS[pid] = dict(rules=rules, explanation=explanation, decided=decided, declined=declined,
                       assumptions=list(assumptions))
 
@@ -43,7 +110,7 @@ prop('C01',
       ('R38', rr.r38_first_and_last_action), ('R51', nm.r51_no_unbound_names), ('R28', ps.r28_strip_complete),
       # R13: the quota form is what keeps seats+1 candidates from all reaching the quota (more winners than seats);
       # R18: a sure-loser batch holds only candidates that cannot be elected (mpls caps it with the write-ins counted in, see F2(i))
-      ('R13', qt.r13_quota), ('R18', ti.r18_sure_loser_strict)],
+      ('R13', qt.r13_quota), ('R18', ti.r18_sure_loser_strict), ('R12', mk.r12_iteration_exits)],
      'Static analysis of /repo source over the count() of every registered rule class (CFG path rules with a small '
      'path-sensitive fact domain, candidate-derivation dataflow): every path to the end of count() completes a total '
      'elect-or-defeat sweep; every elect site is justified by a quota test, a seat guard or a pending receiver; every batch '
@@ -89,7 +156,7 @@ prop('C17',
 prop('C18',
      [('R37', rr.r37_status_changes_logged), ('R38', rr.r38_first_and_last_action), ('R39', rr.r39_tag_agreement),
       ('R40', rr.r40_action_key_flow), ('R41', rr.r41_renderers_read_record), ('R42', rr.r42_dump_arity),
-      ('R03', bt.r03_duplicates), ('R05', cf.r05_status_ownership)],
+      ('R03', bt.r03_duplicates), ('R05', cf.r05_status_ownership), ('R44', it.r44_append_only)],
      'Static analysis of /repo source: elect/defeat log themselves on every path; the first recorded action of every rule '
      'is begin/count/round and the end action is followed directly by the result assignment; tags agree between emitters, '
      'recorder and renderers; renderers and rule hooks read only action keys that the recorder stores for that kind of '
@@ -102,7 +169,7 @@ prop('C18',
      ['textual agreement of report/dump/JSON figures (they print str() of the same stored object)'])
 prop('C15',
      [('R26', ps.r26_cid_sanitiser), ('R26d', ps.r26d_tokenizer_precedence), ('R27', ps.r27_typecode_capacity), ('R28', ps.r28_strip_complete),
-      ('R29', ps.r29_ballot_count_pairing), ('R30', ps.r30_validation), ('R52', ps.r52_optional_tail)],
+      ('R29', ps.r29_ballot_count_pairing), ('R30', ps.r30_validation), ('R52', ps.r52_optional_tail), ('R15', ti.r15_tie_funnel)],
      'Static analysis of droop/profile.py: every candidate ID that enters a set, an order, a name table or a ranking '
      'flows (reaching definitions) from getCid or a 1..nCand range; the ranking array item type can hold every valid ID '
      'of its branch; the withdrawn strip tests every element; nBallots grows exactly on the paths that keep a line; the '
@@ -113,7 +180,7 @@ prop('C15',
 
 prop('C16',
      [('R31', ps.r31_exception_escape), ('R32', ps.r32_loops_consume), ('R26', ps.r26_cid_sanitiser),
-      ('R27', ps.r27_typecode_capacity), ('R33', ps.r33_cli_handlers)],
+      ('R27', ps.r27_typecode_capacity), ('R33', ps.r33_cli_handlers), ('R30', ps.r30_validation)],
      'Static analysis of droop/profile.py and Droop.py: every partial operation reachable from ElectionProfile(data=...) '
      '(next, int, subscripts, local-name loads incl. exception edges, %-formatting, list.remove, array construction, raise) '
      'is discharged, so the escape set is {ElectionProfileError}; every parser loop consumes a token per iteration; accepted '
@@ -143,7 +210,7 @@ prop('C13',
      ['"quasi-exact equals exact": a statement about two counts'])
 
 prop('C14',
-     [('R25', va.r25_printing), ('R50', va.r50_value_immutability)],
+     [('R25', va.r25_printing), ('R50', va.r50_value_immutability), ('R41', rr.r41_renderers_read_record)],
      'Static analysis of the three __str__ methods and of every store to a stored integer: printing is pure; the '
      'rounding constant is half the dropped unit and is added before the floor; the integer/fraction split is applied to '
      'a magnitude with the sign prefixed; renderings use str() only; value objects are never mutated after '
@@ -165,7 +232,7 @@ prop('C07',
 
 prop('C11',
      [('R15', ti.r15_tie_funnel), ('R17', ti.r17_single_from_breaktie), ('R05', cf.r05_status_ownership),
-      ('R28', ps.r28_strip_complete), ('R26', ps.r26_cid_sanitiser)],
+      ('R28', ps.r28_strip_complete), ('R26', ps.r26_cid_sanitiser), ('R16', ti.r16_extremum_polarity)],
      'Static analysis of /repo source: candidates are singled out for a decision only through the declared tie order (never '
      'by position, id or ballot order); withdrawn candidates are never in a selection that receives an action; every '
      'withdrawn id is removed from every rank at parse time; only validated ids can be marked withdrawn. ' + NOT_BEHAVIOUR,
@@ -174,7 +241,7 @@ prop('C11',
      ['equality of winners/tallies under renumbering and record equality with the candidate deleted (metamorphic, two runs)'])
 prop('C06',
      [('R00', cf.r00_helper_semantics), ('R07', gr.r07_transfer_once), ('R08', gr.r08_reset_pairing), ('R09', gr.r09_reweighting), ('R21', va.r21_scale_rounding),
-      ('R13', qt.r13_quota)],   # R13: a surplus is non-negative only if the election test implies tally >= quota in the arithmetic's own order
+      ('R13', qt.r13_quota), ('R20', gr.r20_order_free_loops)],   # R13: a surplus is non-negative only if the election test implies tally >= quota in the arithmetic's own order
      'Static analysis of the five Gregory-family rules: transfer() credits every ballot exactly once (candidate or '
      'non-transferable total) and walks to the next continuing candidate; tallies are written only by the first count, '
      'transfer() and the two resets, each reset preceded by the transfer of every ballot standing to that candidate; ballot '
@@ -187,7 +254,7 @@ prop('C06',
 
 prop('C10',
      [('R19', gr.r19_multiplier_last), ('R20', gr.r20_order_free_loops), ('R21', va.r21_scale_rounding), ('R29', ps.r29_ballot_count_pairing),
-      ('R26d', ps.r26d_tokenizer_precedence)],
+      ('R26d', ps.r26d_tokenizer_precedence), ('R26', ps.r26_cid_sanitiser)],
      'Static analysis: the ballot multiplier only ever multiplies a finished (already rounded) per-ballot quantity and the '
      'product only feeds additive accumulators; no weight or keep computation has the multiplier among its inputs; ballot '
      'loops only accumulate (no break/return, no plain store to shared state); additions are exact (R21), so neither the '
@@ -197,7 +264,7 @@ prop('C10',
      ['equality of whole records under re-presentation (metamorphic)', 'tokenizer layout/comment/nickname behaviour'])
 prop('C08',
      [('R00', cf.r00_helper_semantics), ('R10', mk.r10_residual_pairing), ('R10c', mk.r10c_keep_split), ('R11', mk.r11_keep_factors), ('R12', mk.r12_iteration_exits),
-      ('R14', qt.r14_elect_before_exclude), ('R04', lp.r04_loops), ('R21', va.r21_scale_rounding), ('R29', ps.r29_ballot_count_pairing)],
+      ('R14', qt.r14_elect_before_exclude), ('R04', lp.r04_loops), ('R21', va.r21_scale_rounding), ('R29', ps.r29_ballot_count_pairing), ('R19', gr.r19_multiplier_last), ('R20', gr.r20_order_free_loops)],
      'Static analysis of meek.py and meek_prf.py: in every block of the distribution loops the expressions credited to a '
      'tally are exactly those debited from the ballot residual, residuals start at the multiplier and are summed once per '
      'ballot, tallies and the round residual are zeroed first (with exact add/sub, R21, votes + residual = ballots); keep '
@@ -210,7 +277,7 @@ prop('C08',
 
 prop('C04',
      [('R00', cf.r00_helper_semantics), ('R13', qt.r13_quota), ('R14', qt.r14_elect_before_exclude), ('R02', cf.r02_elect_sites), ('R12', mk.r12_iteration_exits),
-      ('R21', va.r21_scale_rounding)],
+      ('R21', va.r21_scale_rounding), ('R35', op.r35_forced_closure)],
      'Static analysis of every rule: each quota expression, canonicalised, equals the form the property prescribes for the '
      'branch it is on (exact / truncated + one unit / integer floor + 1 / Meek from the votes still credited / QPQ); the '
      'election comparison is > exactly on exact branches and >= otherwise; epsilon is read only where the arithmetic has '
@@ -223,7 +290,7 @@ prop('C04',
 
 prop('C02',
      [('R00', cf.r00_helper_semantics), ('R07', gr.r07_transfer_once), ('R08', gr.r08_reset_pairing), ('R09', gr.r09_reweighting), ('R10', mk.r10_residual_pairing), ('R10b', mk.r10b_redistribute_before_record), ('R10c', mk.r10c_keep_split), ('R29', ps.r29_ballot_count_pairing),
-      ('R19', gr.r19_multiplier_last), ('R21', va.r21_scale_rounding), ('R22', va.r22_closure), ('R37', rr.r37_status_changes_logged)],
+      ('R19', gr.r19_multiplier_last), ('R21', va.r21_scale_rounding), ('R22', va.r22_closure), ('R37', rr.r37_status_changes_logged), ('R20', gr.r20_order_free_loops)],
      'Static analysis of the bookkeeping shape that conservation rests on: a transferred ballot is credited exactly once '
      '(candidate or non-transferable total); a tally is reset only after all its ballots were passed on; transfer values '
      'are old x surplus / tally rounded down (a transfer cannot create votes); Meek credits and residual debits are the same '
